@@ -268,7 +268,9 @@ def run_dropwater_multi(case):
     lines = ["HEADER    VERIF BUILT STRUCTURE                   01-JAN-00"
              "   XXXX"]
     serial = 1
-    wnum = 101
+    # waters numbered from 101, or re-using the numbers of the chain's own
+    # residues (solvent blocks that restart their numbering)
+    wnum = case.get("wnum", 101)
     tail = []
     for k, (seq, cid) in enumerate(zip(seqs, ids)):
         pep = build.build_peptide(seq, chain=cid, start=1 + 10 * k,
@@ -286,6 +288,8 @@ def run_dropwater_multi(case):
                 25.0 * k, record="HETATM"))
             serial += 1
             wnum += 1
+        if case.get("wnum", 101) < 100:
+            wnum = case["wnum"] + 10 * (k + 1)
         if case["place"] == "before_ter":
             lines += wat + ["TER"]
         elif case["place"] == "own_block":
@@ -299,7 +303,8 @@ def run_dropwater_multi(case):
     without = "\n".join(l for l in lines if not l.startswith("W")) + "\n"
     a = pipeline.run(with_w, opts + ["--drop-water"])
     b = pipeline.run(without, opts)
-    tag = (f"{case['place']}/ids={case['ids']}/oxt={case['oxt']}/{ff}")
+    tag = (f"{case['place']}/ids={case['ids']}/oxt={case['oxt']}/"
+           f"wnum={case.get('wnum', 101)}/{ff}")
     if a.ok != b.ok:
         res["violations"].append({
             "sig": f"C09/drop-water/outcome-differs/{case['place']}",
@@ -323,6 +328,12 @@ def run_neutral(case):
     x = case["x"]
     if case["layout"] == "one":
         atoms = build.build_peptide([x, "ALA", x])
+        ends = {1: "n", 3: "c"}
+    elif case["layout"] == "tail":
+        # the chain is followed by waters carrying its chain id
+        atoms = build.build_peptide([x, "ALA", x])
+        atoms.append(build.water((25.0, 9.0, 9.0), 201, chain="A"))
+        atoms.append(build.water((25.0, 13.0, 9.0), 202, chain="A"))
         ends = {1: "n", 3: "c"}
     elif case["layout"] == "hidden":
         # two peptides sharing one chain id, no TER: the first ends in OXT
@@ -432,10 +443,14 @@ def enumerate_cases(tier, seed):
                 for oxt in (True, False):
                     cases.append({"mode": "dropwater_multi", "ff": ff,
                                   "place": place, "ids": ids, "oxt": oxt})
+                    if place != "before_ter":
+                        cases.append({"mode": "dropwater_multi", "ff": ff,
+                                      "place": place, "ids": ids,
+                                      "oxt": oxt, "wnum": 2})
     for st in ("pep_wat", "two_blank", "pep_wide"):
         cases.append({"mode": "lattice", "structure": st, "ff": "AMBER",
                       "ffout": None, "clean": True})
     for x in T.AMINO:
-        for layout in ("one", "two", "hidden"):
+        for layout in ("one", "two", "hidden", "tail"):
             cases.append({"mode": "neutral", "x": x, "layout": layout})
     return cases
